@@ -65,11 +65,18 @@ const TS_SNIPPETS = [
   ['import { defineComponent, SetupContext } from "vue";\nexport const G$ = defineComponent((props: { a?: string }, ctx: SetupContext<{ (e: "x"): void }>) => () => <i />, { inheritAttrs: false });', ['defineComponent']],
 ];
 
+// calls of a `defineComponent` that is not Vue's (another module's export, beside an aliased import of Vue's): resolveType does not govern them
+TS_SNIPPETS.push(
+  ['import { h as h$, defineComponent as dcv$ } from "vue";\nimport { defineComponent } from "./legacy-compat";\nexport const F$ = defineComponent((props: { msg: string }) => () => <p>{props.msg}</p>);\nexport const H$ = dcv$({ name: "H" });', []],
+  ['import { defineComponent } from "vuetify";\nimport type { SetupContext } from "vue";\nexport const V$ = defineComponent((props: { a: string }, ctx: SetupContext<{ change: [] }>) => () => <i />);', []],
+  ['import * as Vue$ from "vue";\nimport { defineComponent } from "vue-demi";\nconst W$ = defineComponent((props: { n?: number }) => () => <b>{props.n}</b>, { inheritAttrs: false });', []],
+);
+
 const FEATURE_OF = {
   transformOn: (f) => f.has('on'),
   mergeProps: (f) => f.has('spread') || f.has('repeat') || f.has('on'),
   enableObjectSlots: (f) => f.has('soleIdent') || f.has('soleCall'),
-  customElementPatterns: (f, list) => f.has('pattern') || (list && list.length > 1 && (f.has('patternCI') || f.has('patternUi'))),
+  customElementPatterns: (f, list) => (list && list.every((p) => p.includes('/')) ? false : f.has('pattern')) || (list && list.length > 1 && (f.has('patternCI') || f.has('patternUi'))),
   resolveType: (f) => f.has('defineComponent'),
 };
 const ON = { transformOn: true, mergeProps: false, enableObjectSlots: false, customElementPatterns: ['^x-'], resolveType: true };
@@ -79,7 +86,8 @@ function randomBase(rng) {
   const o = {};
   for (const k of Object.keys(ON)) o[k] = rng.bool() ? ON[k] : OFF[k];
   // the pattern list that counts as "on" for this base: one pattern, or two where the first carries an inline flag
-  o.__patternsOn = rng.pick([['^x-'], ['(?i)^x-', '^Ui'], ['^x']]);
+  // (a pattern containing a slash can match no tag name: such a list governs nothing)
+  o.__patternsOn = rng.pick([['^x-'], ['(?i)^x-', '^Ui'], ['^x'], ['/-/'], ['x/', '/'], ['/^x-/']]);
   if (o.customElementPatterns.length) o.customElementPatterns = o.__patternsOn;
   o.optimize = rng.bool();
   if (rng.bool(0.2)) o.pragma = 'h';
